@@ -173,6 +173,11 @@ class SimRandomState(_RealRandomState):
 
     def _perm_index(self, n):
         ch = self._c.ch
+        hook = getattr(self._c.entropy, "perm_hook", None)
+        if hook is not None:
+            forced = hook(n)
+            if forced is not None:
+                return numpy.asarray(forced, dtype=numpy.int64)
         idx = numpy.arange(n)
         if n <= 1:
             return idx
